@@ -26,10 +26,6 @@ import MxModel.Props.C06Staking
 namespace Mx.C06StakingBound
 open Mx.Staking
 
-abbrev reach (epoch block dsc maxApr minUnbond perBlock : Nat) (accts wl : List Nat)
-    (ops : List Op) : St :=
-  run (init epoch block dsc maxApr minUnbond perBlock accts wl) ops
-
 /-- one successful transaction keeps the potential-function bound (in a state that satisfies the
     position-token invariant of C07) -/
 theorem potential_step {s s' : St} {op : Op} {o : Out} (hI : PosInv s) (hP : PotInv s)
@@ -38,7 +34,7 @@ theorem potential_step {s s' : St} {op : Op} {o : Out} (hI : PosInv s) (hP : Pot
 
 /-- the potential-function bound holds in every reachable state -/
 theorem pot_inv_reachable (epoch block dsc maxApr minUnbond perBlock : Nat) (accts wl : List Nat)
-    (ops : List Op) : PotInv (reach epoch block dsc maxApr minUnbond perBlock accts wl ops) :=
+    (ops : List Op) : PotInv (run (init epoch block dsc maxApr minUnbond perBlock accts wl) ops) :=
   run_potInv ops (posInv_init epoch block dsc maxApr minUnbond perBlock accts wl)
     (potInv_init epoch block dsc maxApr minUnbond perBlock accts wl)
 
@@ -48,7 +44,7 @@ theorem pot_inv_reachable (epoch block dsc maxApr minUnbond perBlock : Nat) (acc
     the base share of the emission (times the division-safety constant). -/
 theorem potential_bound (epoch block dsc maxApr minUnbond perBlock : Nat) (accts wl : List Nat)
     (ops : List Op) :
-    let s := reach epoch block dsc maxApr minUnbond perBlock accts wl ops
+    let s := run (init epoch block dsc maxApr minUnbond perBlock accts wl) ops
     ((List.range (s.nonce + 1)).map fun n =>
         match s.md n with
         | some (.pos a) => (s.accts.dedup.map fun u => s.hold u n).sum * (s.rps - a.rps)
@@ -70,7 +66,7 @@ theorem total_base_bound : Mx.C06Staking.total_base_bound_full := by
     base share of the emission -/
 theorem claimable_base_bound (epoch block dsc maxApr minUnbond perBlock : Nat) (accts wl : List Nat)
     (ops : List Op) (hd : 0 < dsc) :
-    let s := reach epoch block dsc maxApr minUnbond perBlock accts wl ops
+    let s := run (init epoch block dsc maxApr minUnbond perBlock accts wl) ops
     ((List.range (s.nonce + 1)).map fun n =>
         match s.md n with
         | some (.pos a) => (s.accts.dedup.map fun u => s.hold u n).sum * (s.rps - a.rps) / s.dsc
@@ -83,7 +79,7 @@ theorem claimable_base_bound (epoch block dsc maxApr minUnbond perBlock : Nat) (
     oracle `reserve_covers` / `total_base_bound` computes): separate claims only lose to the floor -/
 theorem claimable_holdings_bound (epoch block dsc maxApr minUnbond perBlock : Nat) (accts wl : List Nat)
     (ops : List Op) (hd : 0 < dsc) :
-    let s := reach epoch block dsc maxApr minUnbond perBlock accts wl ops
+    let s := run (init epoch block dsc maxApr minUnbond perBlock accts wl) ops
     ((List.range (s.nonce + 1)).map fun n =>
         match s.md n with
         | some (.pos a) => (s.accts.dedup.map fun u => s.hold u n * (s.rps - a.rps) / s.dsc).sum
@@ -95,7 +91,7 @@ theorem claimable_holdings_bound (epoch block dsc maxApr minUnbond perBlock : Na
 /-- non-vacuity: two users, a rate change; user 1 has claimed 80000, user 2's position can still
     claim 30000, the base budget is 110000 — the bound is tight here -/
 example :
-    let s := reach 5 10 1000000000000 1000000 2 5000 [1, 2, 101] [101]
+    let s := run (init 5 10 1000000000000 1000000 2 5000 [1, 2, 101] [101])
       [.topUp 1000000, .stake 1 none 1000000000000 [], .advance 10 0, .stake 2 none 1000000000000 [],
        .advance 10 0, .setPerBlock 1000, .advance 10 0, .claim 1 none (1, 1000000000000)]
     s.rps = 80000 ∧ s.paidBase = 80000 ∧ s.baseBudget = 110000 ∧
